@@ -11,6 +11,7 @@ import ast
 import inspect
 import os
 import sys
+import time
 import types
 
 import networkx as nx
@@ -115,6 +116,8 @@ class WorkMeter:
         self.active = False
         self.per_fn: dict = {}
         self.profile = False
+        self.wall_limit = 0.0
+        self.wall_deadline = 0.0
 
     def install(self):
         if self.installed:
@@ -154,6 +157,9 @@ class WorkMeter:
     def _on_jump(self, code, src, dst):
         if dst < src and self.active:
             self.count += 1
+            if self.wall_limit and (self.count & 1023) == 0 and time.monotonic() > self.wall_deadline:
+                self.active = False
+                raise WorkBudgetExceeded(f"wallclock-guard:{code.co_qualname} ({os.path.basename(code.co_filename)})")
             if self.profile:
                 q = code.co_qualname
                 self.per_fn[q] = self.per_fn.get(q, 0) + 1
@@ -171,22 +177,30 @@ class WorkMeter:
         k = (id(fr), line)
         f = tuple(sorted((n, _fp(v)) for n, v in fr.f_locals.items() if n != "sd"))
         self.heads_seen += 1
-        prev = self.last.get(k)
-        if prev is not None and prev[0] == f:
-            cnt = prev[1] + 1
-            if cnt >= self.REPEAT:
-                self.active = False
-                raise NoProgress(f"{code.co_qualname}:{line} ({os.path.basename(code.co_filename)})")
-            self.last[k] = (f, cnt)
-        else:
-            if len(self.last) > 10000:
+        # the code is deterministic: a loop head reached again and again with an identical frame state
+        # (consecutively, or in a cycle of states) makes no progress
+        seen = self.last.get(k)
+        if seen is None:
+            if len(self.last) > 2000:
                 self.last.clear()
-            self.last[k] = (f, 1)
+            seen = self.last[k] = {}
+        h = hash(f)
+        cnt = seen.get(h, 0) + 1
+        if cnt >= self.REPEAT:
+            self.active = False
+            raise NoProgress(f"{code.co_qualname}:{line} ({os.path.basename(code.co_filename)})")
+        if len(seen) > 4000:
+            seen.clear()
+        seen[h] = cnt
         return None
 
     # -- use as:  with METER.call(budget):  sd.expand_bfs()
-    def call(self, budget: int, fingerprints: bool = False):
-        return _MeterCtx(self, budget, fingerprints)
+    def call(self, budget: int, fingerprints: bool = False, wall_limit: float = 0.0):
+        """wall_limit > 0: additionally abort the call after that many seconds (checked every 1024 back-edges).
+        Such an abort is never a verdict: callers report it as an inconclusive case."""
+        c = _MeterCtx(self, budget, fingerprints)
+        c.wall_limit = wall_limit
+        return c
 
 
 class _MeterCtx:
@@ -196,7 +210,9 @@ class _MeterCtx:
     def __enter__(self):
         m = self.m
         m.install()
-        self.saved = (m.count, m.budget, m.fingerprints, m.active)
+        self.saved = (m.count, m.budget, m.fingerprints, m.active, m.wall_limit, m.wall_deadline)
+        m.wall_limit = getattr(self, "wall_limit", 0.0)
+        m.wall_deadline = time.monotonic() + m.wall_limit
         m.count = 0
         m.budget = self.budget
         m.fingerprints = self.fp
@@ -208,6 +224,7 @@ class _MeterCtx:
         m = self.m
         self.used = m.count
         m.count, m.budget, m.fingerprints, m.active = self.saved[0] + m.count, self.saved[1], self.saved[2], self.saved[3]
+        m.wall_limit, m.wall_deadline = self.saved[4], self.saved[5]
         return False
 
 
